@@ -39,8 +39,10 @@ fn one_history(coll: &str, cfg: &Cfg, rng: &mut Rng, ops_done: &AtomicU64, rec: 
     let mut c = make(coll, cfg.cap, cfg.variant);
     if flush { eprintln!("@new fuzz-{} {} {} {}", coll, coll, cfg.variant, cfg.cap); }
     let mut m: BTreeMap<i64, (i64, i64)> = BTreeMap::new(); // key -> (exp, val)
-    let mut t: i64 = 0;
-    rec.clear();
+    // extreme histories: the key universe is pushed against the least / greatest key value, and the clock starts
+    // far below zero
+    let off: i64 = if !cfg.extreme { 0 } else if cfg.universe % 2 == 0 { i32::MAX as i64 - cfg.universe } else { i32::MIN as i64 + 1 };
+    let mut t: i64 = if cfg.extreme && cfg.life < 100 { -1_000_000 } else { 0 };
     let u = cfg.universe;
     let mut n_ops = 0u64;
     let live = |m: &BTreeMap<i64, (i64, i64)>, k: i64, t: i64| -> Option<i64> { m.get(&k).filter(|x| !expiring || x.0 > t).map(|x| x.1) };
@@ -68,7 +70,7 @@ fn one_history(coll: &str, cfg: &Cfg, rng: &mut Rng, ops_done: &AtomicU64, rec: 
     let inj_at: Option<usize> = if cfg.inject { Some(rng.below(cfg.len as u64) as usize) } else { None };
     for i in 0..cfg.len {
         let roll = rng.below(100);
-        let k = rng.range(0, u - 1);
+        let k = off + rng.range(0, u - 1);
         let val = 1000 * (i as i64 + 1) + k % 1000;
         if inj_at == Some(i) {
             // an operation that calls user code: insert of an absent key, or (expiring) a lookup, or a delete
@@ -76,12 +78,12 @@ fn one_history(coll: &str, cfg: &Cfg, rng: &mut Rng, ops_done: &AtomicU64, rec: 
             let op = if expiring {
                 if rng.chance(1, 2) {
                     let mut kk = k; let mut guard = 0;
-                    while live(&m, kk, t).is_some() && guard < 8 { kk = (kk + 1) % u; guard += 1; }
+                    while live(&m, kk, t).is_some() && guard < 8 { kk = off + (kk - off + 1) % u; guard += 1; }
                     if live(&m, kk, t).is_some() { continue; }
                     let e = t + rng.range(0, cfg.life);
                     post.insert(kk, (e, val));
                     Op::new("insert", &[kk, e, val, t])
-                } else { Op::new(["get", "fle", "fl"][rng.below(3) as usize], &[t, rng.range(-1, u)]) }
+                } else { Op::new(["get", "fle", "fl"][rng.below(3) as usize], &[t, (off + rng.range(-1, u))]) }
             } else if rng.chance(1, 2) && !m.contains_key(&k) { post.insert(k, (0, val)); Op::new("insert", &[k, val]) }
             else { post.remove(&k); Op::new("delete", &[k]) };
             let kinj = rng.below(20) as usize;
@@ -146,7 +148,7 @@ fn one_history(coll: &str, cfg: &Cfg, rng: &mut Rng, ops_done: &AtomicU64, rec: 
             let (p_ins, p_get, p_fle, p_fl) = match cfg.profile { 0 => (50, 95, 98, 100), 1 => (45, 55, 80, 100), _ => (40, 60, 75, 90) };
             if roll < p_ins {
                 let mut kk = k; let mut guard = 0;
-                while live(&m, kk, t).is_some() && guard < 8 { kk = (kk + 1) % u; guard += 1; }
+                while live(&m, kk, t).is_some() && guard < 8 { kk = off + (kk - off + 1) % u; guard += 1; }
                 if live(&m, kk, t).is_some() { continue; }
                 // (now and then the greatest expiration the clock type can express)
                 let e = if cfg.extreme && rng.chance(1, 40) { i32::MAX as i64 } else { t + rng.range(0, cfg.life) };
@@ -154,7 +156,7 @@ fn one_history(coll: &str, cfg: &Cfg, rng: &mut Rng, ops_done: &AtomicU64, rec: 
                 m.insert(kk, (e, val));
             } else if roll < p_fl {
                 // half of the probes are stored keys (equality with a stored key is where the three queries differ)
-                let mut kq = rng.range(-1, u);
+                let mut kq = (off + rng.range(-1, u));
                 if rng.chance(1, 2) { if let Some((kk, _)) = m.range(kq..).next() { kq = *kk; } }
                 if roll < p_get { run!(Op::new("get", &[t, kq]), None, Some(s(live(&m, kq, t)))); }
                 else if roll < p_fle { run!(Op::new("fle", &[t, kq]), None, Some(s(pred(&m, kq, false, t).map(|x| x.1)))); }
@@ -165,9 +167,11 @@ fn one_history(coll: &str, cfg: &Cfg, rng: &mut Rng, ops_done: &AtomicU64, rec: 
                 let exp: Vec<String> = m.iter().filter(|(_, x)| x.0 > t).map(|(_, x)| x.1.to_string()).collect();
                 let o = run!(Op::new("export", &[t]), None, None);
                 if o.split(" cap=").next().unwrap_or("") != format!("[{}]", exp.join(",")) { ops_done.fetch_add(n_ops, Ordering::Relaxed); return true; }
+                // (C19: room reserved in proportion to what is exported)
+                if let Some(cap) = o.split(" cap=").nth(1).and_then(|x| x.parse::<usize>().ok()) { if cap > 2 * exp.len() + 8 { ops_done.fetch_add(n_ops, Ordering::Relaxed); return true; } }
                 m.retain(|_, x| x.0 > t);
             } else if roll < 98 { run!(Op::new("clear", &[]), None, None); m.clear(); if rng.chance(1, 2) { t = 0; } }
-            else { let kq = rng.range(-1, u); run!(Op::new("fleby", &[t, 2 * kq]), None, Some(s(pred(&m, kq, false, t).map(|x| x.1)))); }
+            else { let kq = (off + rng.range(-1, u)); run!(Op::new("fleby", &[t, 2 * kq]), None, Some(s(pred(&m, kq, false, t).map(|x| x.1)))); }
         } else {
             // profiles: 0 insert/delete/get, 1 handle-heavy, 2 churn on a nearly full universe
             let (p_ins, p_del, p_get) = match cfg.profile { 0 => (40, 70, 100), 1 => (35, 55, 70), _ => (48, 96, 100) };
@@ -197,13 +201,13 @@ fn one_history(coll: &str, cfg: &Cfg, rng: &mut Rng, ops_done: &AtomicU64, rec: 
                 }
             }
             else if roll < p_get {
-                let mut kq = rng.range(-1, u);
+                let mut kq = (off + rng.range(-1, u));
                 if rng.chance(1, 2) { if let Some((kk, _)) = m.range(kq..).next() { kq = *kk; } }
                 run!(Op::new("get", &[kq]), None, Some(s(live(&m, kq, 0))));
             }
             else {
                 // predecessor handle, then read / write / delete / neighbour steps through it
-                let mut kq = rng.range(-1, u);
+                let mut kq = (off + rng.range(-1, u));
                 if rng.chance(1, 2) { if let Some((kk, _)) = m.range(kq..).next() { kq = *kk; } }
                 // (the comparator form takes 2*key)
                 let use_by = rng.chance(1, 2);
@@ -242,9 +246,18 @@ fn one_history(coll: &str, cfg: &Cfg, rng: &mut Rng, ops_done: &AtomicU64, rec: 
         // so every answer is empty and no stored key may be handed to comparison code
         t = i32::MAX as i64;
         live_check(Some(t));
+        // (in every second history the export comes first, before any lookup has purged lazily)
+        if coll == "key" && rng.chance(1, 2) {
+            let o = run!(Op::new("export", &[t]), None, None);
+            let cap = o.split(" cap=").nth(1).and_then(|x| x.parse::<usize>().ok()).unwrap_or(0);
+            if !o.starts_with("[]") || cap > 8 { ops_done.fetch_add(n_ops, Ordering::Relaxed); return true; }
+            m.clear();
+        }
         // (first the keys stamped with the greatest expiration, then a few others)
         let mut ks: Vec<i64> = m.iter().filter(|(_, x)| x.0 == i32::MAX as i64).map(|(k, _)| *k).take(4).collect();
         ks.extend(m.keys().cloned().take(4));
+        // (and two probes whatever is stored: the second one meets a collection that has just been purged empty)
+        ks.push(off + 1); ks.push(off + 2);
         let rot = rng.below(3);
         for kq in ks {
             // (the three kinds in a rotating order, so that each of them is the first to fail in some history)
@@ -256,6 +269,18 @@ fn one_history(coll: &str, cfg: &Cfg, rng: &mut Rng, ops_done: &AtomicU64, rec: 
                 }
             }
         }
+    }
+    if expiring && cfg.extreme && struct_bad_at.is_none() {
+        // after the last instant: slots accounted for, and an export that reserves nothing for nothing
+        // (in either order, so that both findings get their own failing history)
+        let slots_first = rng.chance(1, 2);
+        if slots_first && (matches!(c.structure(), Some(Err(_))) || c.abs_note().is_some()) { rec.push((Op::new("isempty", &[]), None)); ops_done.fetch_add(n_ops, Ordering::Relaxed); return true; }
+        if coll == "key" {
+            let o = run!(Op::new("export", &[t]), None, None);
+            let cap = o.split(" cap=").nth(1).and_then(|x| x.parse::<usize>().ok()).unwrap_or(0);
+            if !o.starts_with("[]") || cap > 8 { ops_done.fetch_add(n_ops, Ordering::Relaxed); return true; }
+        }
+        if !slots_first && (matches!(c.structure(), Some(Err(_))) || c.abs_note().is_some()) { rec.push((Op::new("isempty", &[]), None)); ops_done.fetch_add(n_ops, Ordering::Relaxed); return true; }
     }
     if expiring && live_check(None) { ops_done.fetch_add(n_ops, Ordering::Relaxed); return true; }
     ops_done.fetch_add(n_ops, Ordering::Relaxed);
@@ -328,6 +353,7 @@ pub fn fuzz_suite(out: &mut Out, coll: &str, seed: u64, millis: u64) -> (u64, bo
         // (the storage-bound oracle needs the peak population: the quiet replay does not track it; the number of
         // insertions is an upper bound)
         r.refm.peak = ops.iter().filter(|o| o.0.name == "insert").count();
+        r.refm.last_t = i64::MIN;
         let mut pending: Option<usize> = None;
         for (i, (op, ek)) in ops.iter().enumerate() {
             if op.name == "@inject" { pending = Some(op.a[0] as usize); continue; }
@@ -356,7 +382,7 @@ pub fn fuzz_suite(out: &mut Out, coll: &str, seed: u64, millis: u64) -> (u64, bo
                 "insert" | "delete" | "clear" | "setidx" | "delidx" => r.ref_update(op, *ek),
                 _ => {}
             }
-            if r.expiring { let tt = if op.name == "insert" { op.a[3] } else if op.a.is_empty() { r.refm.last_t } else { op.a[0] }; r.refm.last_t = r.refm.last_t.max(tt); if op.name == "export" { r.refm.purge(tt); } if op.name == "clear" { r.refm.last_t = 0; } }
+            if r.expiring { let tt = if op.name == "insert" { op.a[3] } else if op.a.is_empty() { r.refm.last_t } else { op.a[0] }; r.refm.last_t = r.refm.last_t.max(tt); if op.name == "export" { r.refm.purge(tt); } if op.name == "clear" { r.refm.last_t = i64::MIN; } }
         }
         r.emit = true;
         if r.out.oracle_fails == before {
